@@ -36,6 +36,49 @@ def _phase_of(arg):
     return out
 
 
+def _find(e, op, acc=None, seen=None):
+    acc = [] if acc is None else acc; seen = set() if seen is None else seen
+    if id(e) in seen or not isinstance(e, (shim.E, shim.B)): return acc
+    seen.add(id(e))
+    if isinstance(e, shim.E) and e.op == op and not any(x is e.a[0] for x in acc): acc.append(e.a[0])
+    for x in e.a:
+        if isinstance(x, (shim.E, shim.B)): _find(x, op, acc, seen)
+    return acc
+
+
+def _phase_of_pixel(px):
+    """the real phase of a kernel sample, read from the sample itself: re contains cos(phi), im contains sin(phi) for one phi
+    (independent of whether the code wrote exp(1j*phi), cos + 1j sin, or called generate_complex_field)"""
+    px = shim.CE.lift(px)
+    c, s_ = _find(px.re, 'cos'), _find(px.im, 'sin')
+    if len(c) != 1 or len(s_) != 1 or c[0] is not s_[0]:
+        raise shim.TraceError('kernel sample is not of the form A cos(phi) + i A sin(phi) (found %d cos / %d sin arguments)' % (len(c), len(s_)))
+    return c[0]
+
+
+def _ites(e, acc=None, seen=None):
+    acc = [] if acc is None else acc; seen = set() if seen is None else seen
+    if id(e) in seen or not isinstance(e, (shim.E, shim.B)): return acc
+    seen.add(id(e))
+    if isinstance(e, shim.E) and e.op == 'ite' and not any(x is e for x in acc): acc.append(e)
+    for x in e.a:
+        if isinstance(x, (shim.E, shim.B)): _ites(x, acc, seen)
+    return acc
+
+
+def _mask_of_pixel(px):
+    """the 0/1 band-limit mask of a kernel sample: the condition of the (single) if-then-else with branches 1 and 0"""
+    found = []
+    for part in (px.re, px.im):
+        for e in _ites(part):
+            c, a, b = e.a
+            if isinstance(a, shim.E) and isinstance(b, shim.E) and a.is_const() and b.is_const() and a.cval() == 1 and b.cval() == 0:
+                if not any(c is x for x in found): found.append(c)
+    if len(found) != 1:
+        raise shim.TraceError('band-limited kernel sample does not carry exactly one 0/1 mask (found %d)' % len(found))
+    return found[0]
+
+
 def kernels():
     g = Gen()
     info = {}
@@ -45,39 +88,35 @@ def kernels():
         ns = shim.base_namespace(); store = []
         _record_exp(ns, store)
         shim.load('odak/learn/wave/util.py', ['wavenumber', 'generate_complex_field'], ns)
+        shim.load_all('odak/learn/wave/classical.py', ns)          # private helpers of the kernel builders
         shim.load('odak/learn/wave/classical.py', [fname], ns)
         H = ns[fname](NU, NV, dx=dx, wavelength=lam, distance=z, device='cpu')
         if H.shape != (NU, NV): raise shim.TraceError('%s: kernel shape %s' % (fname, H.shape))
-        ph = _phase_of(store[-1])
-        ph = shim._np.broadcast_to(ph, (NU, NV))
         for i in range(NU):
             for j in range(NV):
-                g.add('%s_ph_%d_%d' % (tag, i, j), KARGS, ph[i, j])
+                g.add('%s_ph_%d_%d' % (tag, i, j), KARGS, _phase_of_pixel(H[i, j]))
                 g.add('%s_re_%d_%d' % (tag, i, j), KARGS, H[i, j].re)
                 g.add('%s_im_%d_%d' % (tag, i, j), KARGS, H[i, j].im)
-    # band-limited: generate_complex_field(mask, phase)
-    ns = shim.base_namespace(); rec = {}
+    # band-limited: sample = mask01 x exp(i phase); mask and phase are read from the sample itself
+    ns = shim.base_namespace()
     shim.load('odak/learn/wave/util.py', ['wavenumber', 'generate_complex_field'], ns)
-    real_gcf = ns['generate_complex_field']
-    def gcf(a, p):
-        rec['a'], rec['p'] = a, p
-        return real_gcf(a, p)
-    ns['generate_complex_field'] = gcf
+    shim.load_all('odak/learn/wave/classical.py', ns)
     shim.load('odak/learn/wave/classical.py', ['get_band_limited_angular_spectrum_kernel'], ns)
     H = ns['get_band_limited_angular_spectrum_kernel'](NU, NV, dx=dx, wavelength=lam, distance=z, device='cpu')
     if H.shape != (NU, NV): raise shim.TraceError('band-limited kernel shape %s' % (H.shape,))
     for i in range(NU):
         for j in range(NV):
-            m = rec['a'][i, j]
-            if not isinstance(m, shim.B): raise shim.TraceError('band-limit mask is not boolean')
-            g.add('bl_mask_%d_%d' % (i, j), KARGS, m)
-            g.add('bl_ph_%d_%d' % (i, j), KARGS, shim._np.broadcast_to(rec['p'], (NU, NV))[i, j])
-            g.add('bl_re_%d_%d' % (i, j), KARGS, H[i, j].re)
-            g.add('bl_im_%d_%d' % (i, j), KARGS, H[i, j].im)
+            px = shim.CE.lift(H[i, j])
+            g.add('bl_mask_%d_%d' % (i, j), KARGS, _mask_of_pixel(px))
+            g.add('bl_ph_%d_%d' % (i, j), KARGS, _phase_of_pixel(px))
+            g.add('bl_re_%d_%d' % (i, j), KARGS, px.re)
+            g.add('bl_im_%d_%d' % (i, j), KARGS, px.im)
     # ------------------------------------------------------------ NumPy propagators: kernel literals
     k = shim.var('k')
     for tag, fname in (('nas', 'angular_spectrum'), ('ntf', 'transfer_function_fresnel'), ('nbl', 'band_limited_angular_spectrum')):
         ns = opshim.namespace(); store = []
+        for helper in ('odak/wave/utils.py', 'odak/wave/__init__.py'):          # what odak/wave/classical.py imports at module level
+            shim.load_all(helper, ns)
         _record_exp(ns, store)
         shim.load('odak/wave/classical.py', [fname], ns)
         u = opshim.fvar('u', shape=(NU, NV))      # numpy: field.shape = (nv, nu) = (rows, cols)
@@ -86,11 +125,10 @@ def kernels():
         if len(lits) != 1: raise shim.TraceError('%s: expected one kernel literal, found %d' % (fname, len(lits)))
         H = lits[0]
         if H.shape != (NU, NV): raise shim.TraceError('%s: kernel shape %s' % (fname, H.shape))
-        ph = shim._np.broadcast_to(_phase_of(store[-1]), (NU, NV))
         for i in range(NU):
             for j in range(NV):
                 e = shim.CE.lift(H[i, j])
-                g.add('%s_ph_%d_%d' % (tag, i, j), ['k'] + KARGS, ph[i, j])
+                g.add('%s_ph_%d_%d' % (tag, i, j), ['k'] + KARGS, _phase_of_pixel(e))
                 g.add('%s_re_%d_%d' % (tag, i, j), ['k'] + KARGS, e.re)
                 g.add('%s_im_%d_%d' % (tag, i, j), ['k'] + KARGS, e.im)
         info[fname] = opshim.coq(term)
@@ -156,6 +194,8 @@ def pipelines():
     # NumPy pipelines (kernel literal shown as H)
     for f in ('angular_spectrum', 'band_limited_angular_spectrum', 'transfer_function_fresnel', 'impulse_response_fresnel'):
         nsn = opshim.namespace()
+        for helper in ('odak/wave/utils.py', 'odak/wave/__init__.py'):
+            shim.load_all(helper, nsn)
         shim.load('odak/wave/classical.py', [f], nsn)
         un = opshim.fvar('u', shape=(NU, NV))
         term = nsn[f](un, k, z, dx, lam)
